@@ -571,6 +571,11 @@ def worker(f):
         except asyncio.CancelledError:
             connection.response("426", "transfer aborted")
             connection.response("226", "abort successful")
+        except errors.PathIOError:
+            # answered at once, as cancellation is: "ABOR" handled before
+            # dispatcher looks at this task finds nothing to abort and its
+            # reply must not overtake the reply of the failed transfer
+            connection.response("451", "file system error")
 
     return wrapper
 
